@@ -6,6 +6,7 @@ pub mod c09;
 pub mod c10;
 pub mod c11;
 pub mod c12;
+pub mod c13;
 pub mod c14;
 pub mod c15;
 pub mod c16a;
@@ -23,6 +24,7 @@ pub fn get(id: &str, tier: Tier) -> Option<PropertyDef> {
         "C10" => Some(c10::def(tier)),
         "C11" => Some(c11::def(tier)),
         "C12" => Some(c12::def(tier)),
+        "C13" => Some(c13::def(tier)),
         "C14" => Some(c14::def(tier)),
         "C15" => Some(c15::def(tier)),
         "C16" => Some(crate::engine::PropertyDef {
